@@ -126,6 +126,24 @@ def specialReduce (lo hi : List Nat) (c : Nat) : List Nat :=
   let rhs2 := (wsub s.2 1) &&& c
   (usbb s.1 (fromWord lo.length rhs2) 0).1
 
+/-- the same reduction with the proposed repair (`(carry.0 as WideWord + 1) * c`, notes/C07.md):
+    the increment is done in the wide type and cannot overflow.  Not what /repo computes today;
+    kept next to the mirror so that the repair is proved, not just suggested. -/
+def specialReduceRepaired (lo hi : List Nat) (c : Nat) : List Nat :=
+  let m := macByLimb lo hi c 0
+  let rhs := (m.2 + 1) * c
+  let s := uadc m.1 (fromWideWord lo.length rhs) 0
+  let rhs2 := (wsub s.2 1) &&& c
+  (usbb s.1 (fromWord lo.length rhs2) 0).1
+
+/-- `mul_mod_special` with the repaired reduction. -/
+def mulModSpecialRepaired (a b : List Nat) (c : Nat) : List Nat :=
+  if a.length = 1 then
+    [(a.headD 0 * b.headD 0) % (wsub 0 c)]
+  else
+    let prod := val a * val b
+    specialReduceRepaired (toLimbs a.length prod) (toLimbs a.length (prod / B ^ a.length)) c
+
 /-- `Uint::mul_mod_special`.  `LIMBS == 1`: `mul_rem(a, b, 0 - c)` (exact remainder: C02);
     otherwise `split_mul` (exact product: C03) followed by the reduction above. -/
 def mulModSpecial (a b : List Nat) (c : Nat) : List Nat :=
